@@ -307,6 +307,16 @@ func TestC04Packing(t *testing.T) {
 		}
 		hv.PackHint(hb[:])
 		wantH := p.HintBitPack(rh)
+		// the vector packers are called on the tail of larger buffers (buf[offset:]): surplus bytes stay untouched
+		long := make([]byte, Omega+K+23)
+		for i := range long {
+			long[i] = 0x5a
+		}
+		hv.PackHint(long)
+		if !bytes.Equal(long[:Omega+K], wantH) || !bytes.Equal(long[Omega+K:], bytes.Repeat([]byte{0x5a}, 23)) {
+			vlib.Report(t, "C04/pack/"+name+"/PackHint", fmt.Sprintf("PackHint into a longer buffer = %x, specification %x followed by untouched bytes", long, wantH))
+			return
+		}
 		if !bytes.Equal(hb[:], wantH) {
 			vlib.Report(t, "C04/pack/"+name+"/PackHint", fmt.Sprintf("PackHint = %x, specification %x", hb, wantH))
 			return
@@ -517,11 +527,29 @@ func TestC04Hedged(t *testing.T) {
 			}
 		}
 		want, tr := p.SignInternal(rsk, mp, rnd[:])
-		var sig [SignatureSize]byte
+		// the destination may be longer than SignatureSize and hold old data: the surplus must stay as it is
+		surplus := rapid.SampledFrom([]int{0, 0, 1, 16, Omega + K, 200}).Draw(t, "surplus")
+		sigBuf := make([]byte, SignatureSize+surplus)
+		pre := rapid.SampledFrom([]byte{0x00, 0xff, 0xa5}).Draw(t, "prefill")
+		for i := range sigBuf {
+			sigBuf[i] = pre
+		}
+		sig := sigBuf[:SignatureSize]
 		w := func(wr io.Writer) { _, _ = wr.Write(mp) }
-		if pn, st := vlib.Catch(func() { SignTo(sk, w, rnd, sig[:]) }); pn != nil {
-			vlib.Report(t, "C04/panic/"+name+"/internal.SignTo/"+vlib.PanicClass(pn), fmt.Sprintf("seed %x rnd %x: %v\n%s", seed, rnd, pn, st))
+		if pn, st := vlib.Catch(func() { SignTo(sk, w, rnd, sigBuf) }); pn != nil {
+			vlib.Report(t, "C04/panic/"+name+"/internal.SignTo/"+vlib.PanicClass(pn), fmt.Sprintf("seed %x rnd %x surplus %d: %v\n%s", seed, rnd, surplus, pn, st))
 			return
+		}
+		for _, b := range sigBuf[SignatureSize:] {
+			if b != pre {
+				if vlib.Report(t, "C04/sign/"+name+"/long-buffer-surplus", fmt.Sprintf("seed %x: internal.SignTo wrote behind SignatureSize (surplus %d)", seed, surplus)) {
+					return
+				}
+				break
+			}
+		}
+		if surplus > 0 {
+			vlib.Class(sub, "long-destination")
 		}
 		if !bytes.Equal(sig[:], want) {
 			if vlib.Report(t, "C04/sign/"+name+"/hedged", fmt.Sprintf("seed %x rnd %x M' %s: internal.SignTo differs from Sign_internal (reference needed %d rounds)", seed, rnd, vlib.Hex(mp), len(tr.Rounds))) {
